@@ -2,12 +2,15 @@ import Mathlib.Tactic.FinCases
 import Mathlib.Tactic.NormNum
 import Mathlib.Algebra.Order.Field.Rat
 import TapkeeVerif.Proofs.LandmarksEuclid
+import TapkeeVerif.Proofs.LandmarksRatioOne
 /-!
 C11 concrete instances over ℚ: five collinear samples `1, 1, −1, −1, 3`, the first four are the landmarks.
 
 * `d = 1`: all hypotheses of `lmds_exact_recovery_partial` hold (non-vacuity).
 * `d = 2`: the data have affine dimension `1 < d`; the solver's (exact, orthonormal, complete) answer contains the
-  eigenvalue `0`, `triangulate` divides by it — the witness of `lmds_exact_recovery_refuted` (F-LMDS-RANKDEF).
+  eigenvalue `0`.  Before fix F-LMDS-RANKDEF (745a460) `triangulate` divided by it (the former
+  `lmds_exact_recovery_refuted`); now the pseudo-inverse zeroes that column and the instance satisfies the hypotheses
+  of the full `lmds_exact_recovery` (corpus/C11/f-lmds-rankdef.case replays it on the real code).
 -/
 namespace TapkeeVerif.Landmarks.Witness
 open TapkeeVerif TapkeeVerif.Landmarks Finset
@@ -80,6 +83,13 @@ theorem sqrt2 : IsSqrt s2 lam2 := by
   intro i
   fin_cases i <;> simp [s2, lam2] <;> norm_num
 
+theorem sqrtc1 : IsSqrtClamped s1 lam1 := by
+  intro i; simp [s1, lam1, clamp0]; norm_num
+
+theorem sqrtc2 : IsSqrtClamped s2 lam2 := by
+  intro i
+  fin_cases i <;> simp [s2, lam2, clamp0] <;> norm_num
+
 /-! ### four collinear samples `1, 1, −1, −1` as an Isomap / Landmark Isomap instance -/
 
 def z4 : Fin 4 → ℚ := fun a => if a.1 < 2 then 1 else -1
@@ -87,6 +97,7 @@ def G4 : Mat 4 4 ℚ := fun x y => if decide (x.1 < 2) = decide (y.1 < 2) then 0
 def V4 : Mat 4 1 ℚ := fun a _ => z4 a
 def mu4 : Vec 1 ℚ := fun _ => 4
 def q4 : Vec 1 ℚ := fun _ => 2
+def lam4 : Vec 1 ℚ := fun _ => 16
 
 theorem G4_symm (x y : Fin 4) : G4 x y = G4 y x := by
   fin_cases x <;> fin_cases y <;> simp [G4]
@@ -102,7 +113,8 @@ theorem isomapPre4 (x y : Fin 4) : isomapPreOfGeodesics G4 x y = z4 x * z4 y := 
     intro a; simp [Fin.sum_univ_four, z4]
   have := gramlike_center (fun a => z4 a * z4 a) (fun a b => z4 a * z4 b) (fun i j => G4 i j * G4 i j)
     (by norm_num) hA hp hp' x y
-  simpa [isomapPreOfGeodesics, scale] using this
+  rw [isomapPre_of_symm G4 G4_symm]
+  simpa [scale] using this
 
 theorem eig4 : IsEig (isomapPreOfGeodesics G4) V4 mu4 := by
   intro a i
